@@ -326,7 +326,7 @@ def c08():
 def c12():
     obs = []
     for sh, b1, b2, tier in [([2, 2, 2], 2, 3, Q), ([1, 2, 2], 2, 4, Q), ([2, 1, 2], 3, 4, Q), ([1, 2, 1], 1, 2, Q), ([2, 2, 2], 0, 2, Q),
-                             ([2, 2, 2], 2, 4, T), ([1, 2, 2], 2, 3, T), ([2, 2, 1], 2, 3, T), ([1, 1, 1], 2, 3, T), ([2, 2, 2, 2], 2, 3, T), ([2, 2, 2, 2], 2, 5, T), ([1, 2, 2], 1, 2, T)]:
+                             ([2, 2, 2], 2, 4, T), ([1, 2, 2], 2, 3, T), ([2, 2, 1], 2, 3, T), ([1, 1, 1], 2, 3, T), ([2, 2, 2, 2], 2, 3, T), ([1, 2, 2], 1, 2, T)]:
         n = len(sh)
         obs.append(pfc('c12.pfc.len%s.bs%d_vs_%d' % (''.join(map(str, sh)), b1, b2), 'C12', 'h_pfc_c12', n, 2, b1, defs={'LENV': lenv(sh), 'BS2': b2, 'C12_PREFIX': None}, tier=tier,
                        timeout=600 if tier == Q else 1500))
